@@ -90,7 +90,8 @@ def enumerate_ops(ctx, bindir, binname, keys):
 def main(ctx):
     ctx.rule = ("D cases: for every enumerated operator with in_place_inputs() or is_commutative(): seeded random valid inputs (rank<=4, dims 0..5, "
                 "values in [-4,4], f32/i32/i8/u8 as supported), normal run vs in-place runs on owned copies in up to 4 storage arrangements and "
-                "swapped operands; B cases: Add/Sub/Mul on all shape pairs of rank<=2 (quick) / <=3 (thorough) with dims 0..3 plus random pairs, "
+                "swapped operands; F cases: the same on f32 operands with inexact sums/products/reciprocals (thirds, tenths, 7, 10, pi, large/small/subnormal) "
+                "and single-element second operands; B cases: Add/Sub/Mul on all shape pairs of rank<=2 (quick) / <=3 (thorough) with dims 0..3 plus random pairs, "
                 "compared with the Coq model; non-trivial = the normal run succeeded and at least one alternative execution exists")
     ctx.trusted += ["the hook src/verif/ops.rs builds operators with the ONNX registry's reader and calls Operator::run / run_in_place with a BufferPool",
                     "fast_broadcast_cycles_repeats is tied to its model only through operator results (not observable directly)",
@@ -112,7 +113,7 @@ def main(ctx):
     for c in cases:
         t = c["tag"]
         if not t.startswith("trivial") and not t.startswith("bin-"):
-            covered.add(t.split("|")[0])
+            covered.add(t.split("|")[0].replace("inexact:", ""))
     if not ctx.replay_path:
         holes = [k for k in inplace if k not in covered and not k.startswith("TI:")]
         ctx.extra["in_place_operators_without_successful_case"] = holes
